@@ -26,9 +26,12 @@
     2 and 3 are ties of the text-building layer only: what they delegate to is the regenerated code, not yet the model.
     4. [get_kvpair_element] of the no-duplicates class REFINES the model's [nd_get] on every state that represents a
        list of fields (C10's [nd_rep]).
+    5. [set_kvpair_element] of the no-duplicates class REFINES the model's [nd_set_kvpair] under [nd_rep], for a new
+       element that is fresh and spells an existing name as the existing field does; 6. the parser primitive's
+       allocation is fresh.
 
     NOT proved (regenerated and type-checked on every run, but without a theorem): that the regenerated
-    [set_field_from_raw_string] and [set_kvpair_element] refine the model's [set_raw] / [nd_set_kvpair] on states that represent a list of fields (C10's [nd_rep]); the duplicates class; __delitem__.
+    [set_field_from_raw_string] refines the model's [set_raw] on states that represent a list of fields (C10's [nd_rep]); the duplicates class; __delitem__.
 
     Still hand-modelled inside (Repro/DocTrPrims.v, each DEFINED from the model's functions): str.strip/lstrip/rstrip
     ([py_strip] …), endswith("\n") = [ends_nl], startswith("#") = [starts_hash], index("\n") / split("\n", 1) through
@@ -98,6 +101,34 @@ Theorem C05_tie_nd_get_kvpair_element :
     end.
 Proof. exact tr_nd_get_rep. Qed.
 Print Assumptions C05_tie_nd_get_kvpair_element.
+
+(** 5. set_kvpair_element of Deb822NoDuplicateFieldsParagraphElement REFINES the model's [nd_set_kvpair]: for every state
+    that represents the list [fs] (C10's [nd_rep]) and every element [v] of the store holding the field [vf] that
+      - is not yet an element of the paragraph ([kv_unused]: no entry of the dict holds it — a boolean on the state), and
+      - spells the name as the existing field of that name does, if there is one ([spell_ok]: the order set keeps the
+        spelling of the existing key while the model reads the names off the fields; set_field_from_raw_string
+        establishes it by re-using the original field's name),
+    the regenerated method ends in a state representing the model's result — the field replaced in place, or appended
+    after the final newline was supplied to the last field (C10's regenerated _ensure_final_newline, C09's regenerated
+    OrderedSet.add) — and raises exactly when the model does (KeyError for an index other than 0, ValueError for a key
+    that is not the field's name), then with the state still representing [fs]. *)
+Theorem C05_tie_nd_set_kvpair_element :
+  forall hp kvs kvd os fs k v vf,
+    nd_rep hp kvs kvd os fs ->
+    t_get v kvs = Some vf -> kv_unused kvd v = true -> spell_ok fs vf = true ->
+    nd_refines (tr_nd_set_kvpair_element lower hp kvs kvd os k v) (res_sres fs (nd_set_kvpair fs k vf)).
+Proof. exact tr_nd_set_kvpair_refines. Qed.
+Print Assumptions C05_tie_nd_set_kvpair_element.
+
+(** 6. The freshness hypothesis of 5 is what the parser primitive's allocation establishes: on every state whose dict
+    and store are consistent with some list of elements ([kv_inv], the second half of [nd_rep]), the reference that
+    [paragraph.get_kvpair_element(field_name)] of the freshly parsed one-field paragraph allocates ([kv_fresh], the
+    allocation of [trp_pp_get]) is not in the store and not held by any entry of the dict. *)
+Theorem C05_tie_parsed_element_is_fresh :
+  forall kvs kvd P,
+    kv_inv kvs kvd P -> t_get (kv_fresh kvs) kvs = None /\ kv_unused kvd (kv_fresh kvs) = true.
+Proof. intros kvs kvd P H. split; [apply kv_fresh_get|exact (kv_fresh_unused _ _ _ H)]. Qed.
+Print Assumptions C05_tie_parsed_element_is_fresh.
 
 (** The regenerated function computes on a non-trivial value: a comment without "#" and newline is normalised. *)
 Example C05_tie_example :
